@@ -1,4 +1,4 @@
-#include "/repo/src/highlevel/bidib_highlevel_util.c"
+#include "src/highlevel/bidib_highlevel_util.c"
 #include "vx.h"
 void vx_thread_handles(unsigned long out[3]) {
 	out[0] = (unsigned long) bidib_receiver_thread; out[1] = (unsigned long) bidib_autoflush_thread;
